@@ -393,8 +393,8 @@ fn prepare(case: Case, a: bool, root: &Path, have_model: bool) -> Prep {
     // the IR (bindgen's parser, not modelled) misreads some declarators; inside a defect region of the
     // printer this is only counted, elsewhere it is a disagreement
     for (fi, j) in ir_bad {
-        let fp = &p.fns[fi];
-        let in_region = std::iter::once(&fp.ret_status).chain(fp.param_status.iter()).any(|s| s.defect.is_some());
+        let irf = by_name[p.case.funcs[fi].name.as_str()];
+        let in_region = ret_defect(a, &irf.ret).is_some() || irf.params.iter().any(|(_, t)| defect(a, Ctx::Direct, t).is_some());
         if in_region || !p.case.funcs[fi].is_static() {
             p.ir_ast_mismatch.push(j);
         } else {
